@@ -21,13 +21,36 @@ NEEDS = {
  "C11_2":"from_str_radix_vartime with radix 2/4/16 and leading zeros directly followed by `_`",
  "C11_3":"BoxedUint::random_mod with a modulus stored at a precision at least one limb wider than its value",
 }
+NEEDS.update({
+ "R2_C19_1":"a multi-limb modulus whose top limb is an exact power of two with non-zero low limbs, and a distribution check (or an RNG whose first word equals the top limb)",
+ "R2_C19_2":"BoxedUint, bits_precision not a multiple of 64 and bit_length between the precision and the limb-rounded precision (two cooperating edits)",
+ "R2_C19_3":"Limb::random_mod with a modulus >= 256 that has a rejection region, and a distribution check (stale low bytes kept across retries within one call)",
+ "R2_C18_1":"RlpStream::new_list(n>=2) with a zero value at a non-final position (the item is counted twice and the list header closes early)",
+ "R2_C18_2":"an RLP payload of exactly BYTES octets that starts with 00",
+ "R2_C18_3":"the TryFrom<AnyRef> entry point with a negative, non-minimal or empty INTEGER body",
+ "R2_C16_1":"a fmt::Write sink that refuses one chunk of a non-final limb (UpperHex / Display / Debug)",
+ "R2_C16_2":"a forged ConstMontyForm record holding exactly the modulus",
+ "R2_C16_3":"BoxedUint::from_le_slice with a precision whose byte length is below the limb-rounded size and an input length in that gap",
+ "R2_C12_1":"an RNG that yields two consecutive all-zero samples",
+ "R2_C12_2":"NonZero<BoxedUint>::widen to a precision smaller than the current one with only high limbs set (two cooperating edits)",
+ "R2_C12_3":"a conditional select / assign / swap on MontyParams or MontyForm with a true choice, then .modulus()",
+ "R2_C08_1":"the all-ones modulus 2^BITS-1 and an odd Montgomery representation, halving on the fixed-width forms",
+ "R2_C08_2":"a boxed modulus of two or more limbs whose top limb is all ones, operands near m",
+ "R2_C08_3":"ConstMontyForm::random with an RNG returning exactly the modulus words for a candidate, or a tiny modulus (two cooperating edits)",
+ "R2_C11_1":"BoxedMontyParams::new_vartime on a modulus with >= 64 leading zero bits, then lincomb_vartime (debug build traps, optimized build wraps)",
+ "R2_C11_2":"BoxedMontyForm::pow on a modulus with exactly one leading zero bit and a rare base/exponent pair (about 1 in 7500)",
+ "R2_C11_3":"a DER INTEGER whose magnitude is exactly one octet too long",
+})
 os.makedirs("/verif/seeded", exist_ok=True)
 rows=[]
 for name, needs in NEEDS.items():
-    prop, i = name.split("_")
-    src=f"/tmp/wt_{prop}/seeded_out/{i}"
+    parts = name.split("_")
+    prop, i = parts[-2], parts[-1]
+    src=f"/tmp/wt2_{prop}/seeded_out/{i}" if name.startswith("R2_") else f"/tmp/wt_{prop}/seeded_out/{i}"
     res_p=f"/tmp/seed_logs/{name}.json"
-    if not (os.path.isdir(src) and os.path.exists(res_p)): print("missing", name); continue
+    if not (os.path.isdir(src) and os.path.exists(res_p)):
+        if not os.path.exists(f"/verif/seeded/{name}/meta.json"): print("missing", name)
+        continue
     res=json.loads(open(res_p).read().replace("\n"," "))
     dst=f"/verif/seeded/{name}"; os.makedirs(dst, exist_ok=True)
     for f in ("patch.diff","demo.rs","README.md"):
@@ -51,6 +74,12 @@ for name, needs in NEEDS.items():
       "caught_by":caught,
       "first_violations_reported":first,
     }
-    json.dump(meta, open(os.path.join(dst,"meta.json"),"w"), indent=1)
+    old_p=os.path.join(dst,"meta.json")
+    if os.path.exists(old_p):
+        try:
+            h=json.load(open(old_p)).get("history")
+            if h: meta["history"]=h
+        except Exception: pass
+    json.dump(meta, open(old_p,"w"), indent=1)
     rows.append((name,prop,needs,caught))
 for r in rows: print(r[0], "caught by", r[3] or "NOTHING")
